@@ -380,7 +380,13 @@ func (v *vc) contractCall(fr *frame, st *state, instr ssa.Instruction, fc *funcC
 	se := v.calleeEnv(fr, st, fc, callee, c, args)
 	se.pre = pre
 	se.cur = pre
+	assumeReq := fr.top && fr.fc != nil && fr.fc.callAssumeReq[site]
 	for _, r := range fc.requires {
+		if assumeReq {
+			v.trusted[fmt.Sprintf("assumption: preconditions of %s assumed at %s (invariant of the callee's receiver, not tracked by the caller)", key, site)] = true
+			v.fact(st, se.evalAssume(r.expr))
+			continue
+		}
 		t := se.evalGoal(r.expr)
 		v.oblige(st, "requires", r.label, site, t, nil)
 	}
@@ -391,6 +397,11 @@ func (v *vc) contractCall(fr *frame, st *state, instr ssa.Instruction, fc *funcC
 		for _, m := range fc.modifies {
 			v.applyModifies(se, st, pre, m)
 		}
+		// the callee may allocate whatever its frame says
+		nt := v.fresh("top")
+		v.decl(nt, "Int")
+		v.fact(st, fmt.Sprintf("(>= %s %s)", nt, st.top))
+		st.top = nt
 	}
 	sig := c.Signature()
 	results := v.havocResults(st, sig, shortCallee(c))
@@ -400,6 +411,9 @@ func (v *vc) contractCall(fr *frame, st *state, instr ssa.Instruction, fc *funcC
 		t := se.evalAssume(e.expr)
 		v.fact(st, t)
 	}
+	if fr.top && len(fc.ensures) > 0 {
+		v.coverOnce(st, "after-"+site)
+	}
 	v.setResult(fr, st, res, results)
 }
 
@@ -407,6 +421,26 @@ func (v *vc) contractCall(fr *frame, st *state, instr ssa.Instruction, fc *funcC
 func (v *vc) applyModifies(se *specEnv, st *state, pre *state, m string) {
 	if m == "*" {
 		v.havocAll(st)
+		return
+	}
+	if strings.HasPrefix(m, "*except ") {
+		// everything may change except the listed whole-type heaps (e.g. "*except store.all")
+		old := st.clone()
+		v.havocAll(st)
+		for _, ent := range strings.Fields(strings.TrimPrefix(m, "*except ")) {
+			e, err := parseSpecExpr(ent)
+			if err != nil {
+				v.errs = append(v.errs, err.Error())
+				continue
+			}
+			for _, l := range se.locations(e, pre) {
+				if l.ref != "" {
+					v.errs = append(v.errs, "*except entries must be whole-type heaps (Type.all)")
+					continue
+				}
+				st.heaps[l.heap] = v.getHeap(old, l.heap)
+			}
+		}
 		return
 	}
 	if strings.HasPrefix(m, "ghost ") {
